@@ -375,14 +375,17 @@ wait:
 
 // genPrioBareScenario: the real-clock generator plus stops right after construction and, for
 // v1 without scripted rough stop, control calls.
-func genPrioBareScenario(rng *rand.Rand) PrioRealScenario {
+func genPrioBareScenario(rng *rand.Rand, earlyStopOnly bool) PrioRealScenario {
 	vers := allVers
 	ctl := false
 	if rng.IntN(4) == 0 {
 		vers, ctl = []string{"v1"}, true
 	}
+	if earlyStopOnly {
+		vers, ctl = []string{"v1s", "v1s", "v1"}, false
+	}
 	sc := genPrioRealScenario(rng, vers, ctl)
-	if (sc.Ver == "v1" || sc.Ver == "v1s") && rng.IntN(4) == 0 {
+	if (sc.Ver == "v1" || sc.Ver == "v1s") && (earlyStopOnly || rng.IntN(4) == 0) {
 		// Stop / cancel immediately after the constructor has returned
 		sc.Ctl = append([]PRealCtl{{AfterUs: 0, Op: []string{"stop", "cancel"}[rng.IntN(2)]}}, sc.Ctl...)
 	}
